@@ -124,15 +124,16 @@ def status_xml(st):
         inner = '<samlp:StatusCode Value=%s/>' % _qa(st['sub'])
     msg = '<samlp:StatusMessage>%s</samlp:StatusMessage>' % _esc(st['message']) if st.get('message') else ''
     code = st.get('code', SUCCESS)
+    extra = st.get('code_extra_attrs', '')       # raw attribute text appended to the top-level StatusCode start tag
     if inner:
-        return '<samlp:Status><samlp:StatusCode Value=%s>%s</samlp:StatusCode>%s</samlp:Status>' % (_qa(code), inner, msg)
-    return '<samlp:Status><samlp:StatusCode Value=%s/>%s</samlp:Status>' % (_qa(code), msg)
+        return '<samlp:Status><samlp:StatusCode Value=%s%s>%s</samlp:StatusCode>%s</samlp:Status>' % (_qa(code), extra, inner, msg)
+    return '<samlp:Status><samlp:StatusCode Value=%s%s/>%s</samlp:Status>' % (_qa(code), extra, msg)
 
 
 def response_xml(r):
     out = ['<samlp:Response xmlns:samlp="%s" xmlns:saml="%s"%s>' % (
         SAMLP, SAML, _attrs([('ID', r['id']), ('Version', r.get('version', '2.0')), ('IssueInstant', r.get('issue_instant')),
-                             ('Destination', r.get('destination')), ('InResponseTo', r.get('in_response_to'))]))]
+                             ('Destination', r.get('destination')), ('InResponseTo', r.get('in_response_to'))]) + r.get('extra_attrs', ''))]
     if r.get('issuer') is not None:
         out.append('<saml:Issuer%s>%s</saml:Issuer>' % (_attrs([('Format', r.get('issuer_format', ENTITY))]), _esc(r['issuer'])))
     if r.get('signature'):
